@@ -119,8 +119,15 @@ def rule_ter_chain_count(prog, rep, rid):
 
 
 def _guards(stmt, stop):
+    """Tests that hold on the way to stmt (a test that must be false is returned without its leading `not`)."""
     from ..core import guards_of
-    return [t for t, p in guards_of(stmt, stop) if p]
+    out = []
+    for t, p in guards_of(stmt, stop):
+        while isinstance(t, ast.UnaryOp) and isinstance(t.op, ast.Not):
+            t, p = t.operand, not p
+        if p:
+            out.append(t)
+    return out
 
 
 def _pqr_line(rec, serial, name, resname, chain, resseq, icode, x, y, z, q, r):
